@@ -1155,6 +1155,96 @@ def simple_periodic_scenario(ctx):
         p.stop()
 
 
+def periodic_store_correspondence(ctx):
+    """The model `PeriodicStore.run good` against the real `PeriodicReportsHandler` store and the real fixed-interval loop: random
+    sequences of commits and collector blocks; commits also fall between the two blocks of one period (after the critical section
+    that copies and empties the store, before the send). Compared: what has been sent so far, in order, and what is still stored.
+    The oracle is the statement itself: after a final period everything committed has been in exactly one periodic report."""
+    p = lb.Provider(mdib_path=c02.MDIBS[1], start=False, role_providers=False)
+    try:
+        m = p.mdib
+        w = tx.World(p, ctx.subrng('pstore'))
+        probe = RetainedProbe(w)
+        handler = probe.periodic
+        handler._periodic_reports_interval = 1.0  # noqa: SLF001
+        ses = p.device.hosted_services.state_event_service
+        hs = w.states_of_kind('metric')
+        rng = ctx.subrng('pstore-seq')
+        sent = []
+        pending = []       # commits to perform between the two blocks of the running period
+        events = []
+
+        def commit():
+            with m.metric_state_transaction() as mgr:
+                w.mutate_state(mgr.get_state(rng.choice(hs)), rng.randrange(1000))
+            events.append(f'p{m.mdib_version}')
+        orig_send = ses.send_periodic_metric_report
+
+        def send(periodic_states, *a, **k):
+            sent.extend(ps.mdib_version for ps in periodic_states)
+            return orig_send(periodic_states, *a, **k)
+
+        class Lock:
+            def __init__(self, inner):
+                self.inner = inner
+                self.n = 0
+
+            def __enter__(self):
+                self.inner.acquire()
+
+            def __exit__(self, *a):
+                self.inner.release()
+                self.n += 1
+                if self.n == 1:         # the first critical section of a period is the one of the metric store
+                    events.append('c')
+                    while pending:
+                        pending.pop()
+                        commit()
+        real_lock = handler._periodic_reports_lock  # noqa: SLF001
+        ses.send_periodic_metric_report = send
+        lines, reals = [], []
+        try:
+            for _ in range(ctx.n(20, 200)):
+                # drain what an earlier sequence left, start from the empty store
+                handler._periodic_reports_lock = real_lock  # noqa: SLF001
+                run_collector_once(handler, loop='_simple_periodic_reports_send_loop')
+                del sent[:], events[:]
+                for _tick in range(rng.choice([1, 2, 3, 5])):
+                    for _k in range(rng.choice([0, 0, 1, 2, 4])):
+                        commit()
+                    pending.extend([1] * rng.choice([0, 0, 1, 3]))
+                    lock = Lock(real_lock)
+                    handler._periodic_reports_lock = lock  # noqa: SLF001
+                    run_collector_once(handler, loop='_simple_periodic_reports_send_loop')
+                    events.append('c')
+                handler._periodic_reports_lock = real_lock  # noqa: SLF001
+                stored = [ps.mdib_version for ps in handler._periodic_metric_reports]  # noqa: SLF001
+                lines.append('pstore ' + ','.join(events))
+                reals.append(' '.join(map(str, sent)) + '||' + ' '.join(map(str, stored)))
+                committed = [int(e[1:]) for e in events if e.startswith('p')]
+                case = {'periodic_store': list(events)}
+                # statement: one more period and every committed state has been in exactly one periodic report
+                run_collector_once(handler, loop='_simple_periodic_reports_send_loop')
+                if sorted(sent) != sorted(committed):
+                    missing = sorted(set(committed) - set(sent))
+                    twice = sorted(v for v in set(sent) if sent.count(v) > 1)
+                    ctx.fail('changed-state-not-in-periodic-report' if missing else 'state-twice-in-periodic-reports',
+                             f'commits {committed}: never in a periodic report {missing}, in more than one {twice}', case)
+                ctx.case(case, nontrivial=len(committed) > 0)
+                ctx.count('periodic-store-sequences')
+        finally:
+            ses.send_periodic_metric_report = orig_send
+            handler._periodic_reports_lock = real_lock  # noqa: SLF001
+        if ctx.driver_ok and lines:
+            for line, real, model in zip(lines, reals, ctx.driver('drv_c04', lines)):
+                if real != model:
+                    ctx.disagree('periodic store model vs PeriodicReportsHandler: sent | held | stored', {'periodic_store': line}, model, real)
+                    break
+        w.close()
+    finally:
+        p.stop()
+
+
 def filter_forms_scenario(ctx):
     """The wse:Filter of a Subscribe is an xs:list of action URIs: any white space separates them. A real consumer subscribes
     over HTTP with its filter written with newlines / tabs / several blanks; after that every report kind of committed
@@ -1379,6 +1469,7 @@ def run(ctx):
     sequence_restart_scenario(ctx)
     observer_interference_scenario(ctx)
     simple_periodic_scenario(ctx)
+    periodic_store_correspondence(ctx)
 
 
 def search(ctx):
